@@ -20,6 +20,24 @@ CLAIMED = {
             "degrees), rotate_points and rigid motion of composites/RigidCluster are decided for ALL real "
             "inputs (one symbolic point / 2-4 members) by SMT over the terms the real functions produce.",
             '§2 C19', TRUST + "; round trips assume the stated distance from coordinate singularities"),
+    'C20': ('model_checking',
+            "Containment/layer/index of spheres, layered spheres, ellipsoids and CSG combinations, translation, "
+            "bounds, overlaps/largest_overlap/warning/rejections and LimitOverlaps are decided for ALL real "
+            "geometries (symbolic centres, radii, query points) by path exploration of the real indicator code "
+            "+ SMT against independently written analytic predicates.",
+            '§2 C20', TRUST + "; find_bounds search loop and voxel convergence outside the claim"),
+    'C14': ('model_checking',
+            "Constructor validation, support, lnprob/prob, Uniform normalisation, guess in support, scale/unscale, "
+            "operator identities and closure (16 expressions, depth<=3), derived guess/sample, ComplexPrior, "
+            "updated/generate_guess decided for ALL real parameters; RNG = contract stub.",
+            '§2 C14', TRUST + "; RNG draws are arbitrary values within the documented contract, distributional "
+            "agreement and the Gaussian integral are outside the claim"),
+    'C17': ('model_checking',
+            "ifft(fft(x))=x for all pixel values on shapes {2,3,4,6}^2 (exact symbolic DFT) and for every axis "
+            "length 1..64 via the index maps of the shift calls the real code makes (z3 LIA); transfer-function "
+            "group law, |G|<=1, inverse, cascaded and gradient options for all distances; propagate end to end "
+            "(compose, linear, list, zero, coordinates/metadata, per-frequency energy + Parseval).",
+            '§2 C17', TRUST + "; pocketfft = exact DFT; wavelength/spacing concrete; coordinates starting at 0"),
 }
 
 NOT_YET = {}
